@@ -8,7 +8,10 @@ mod direct;
 mod direct2;
 mod d_c07;
 mod d_c09;
+mod d_c10;
 mod d_c14;
+mod d_c17;
+mod closure;
 mod d_c19;
 mod d_c20;
 mod explore;
